@@ -1,16 +1,131 @@
+(* C01 — property theorems only.  "pack" / "unpack" are the executable model of C01/Model.v (the same functions
+   the correspondence C01/Corr.v runs against the real packers). *)
 From Coq Require Import List NArith Bool.
 Import ListNotations.
-From VF Require Import C01.Model.
+From VF Require Import C01.Model C01.Proofs.
 Local Open Scope N_scope.
 
+(* FULL STATEMENT, part 1 (round trip).  For every configuration (packer, key type, enc, key reference style),
+   every payload, sender, recipient list of ANY length (duplicates allowed) and any randomness: if Pack
+   succeeded, every party holding the private part of at least one recipient key unpacks — through the packer
+   and through the packager's dispatch — exactly that payload, with the true sender key for authenticated
+   encryption (none for anoncrypt) and, as ToKey, a recipient key of the envelope that it holds. *)
+Theorem roundtrip : forall c spar payload sender rcpts rn w party,
+  pack c spar payload sender rcpts rn = Ok w ->
+  (exists k, In k rcpts /\ In k party) ->
+  exists k, In k rcpts /\ In k party /\
+    unpack Fixed (packer_of c) party w = Ok (Bytes payload, expect_from (packer_of c) sender, k) /\
+    unpack_pkgr Fixed party w = Ok (Bytes payload, expect_from (packer_of c) sender, k).
+Proof. exact roundtrip_lemma. Qed.
+Print Assumptions roundtrip.
+
+(* FULL STATEMENT, part 2 (only recipients).  A party holding none of the recipient private keys gets an error. *)
+Theorem only_recipients : forall c spar payload sender rcpts rn w party,
+  pack c spar payload sender rcpts rn = Ok w ->
+  (forall k, In k rcpts -> ~ In k party) ->
+  unpack Fixed (packer_of c) party w = Err ENotFound /\ unpack_pkgr Fixed party w = Err ENotFound.
+Proof. exact only_recipients_lemma. Qed.
+Print Assumptions only_recipients.
+
+(* both at once: whoever unpacks, the result is the packed triple or the not-a-recipient error — never another
+   payload, never a panic *)
+Theorem unpack_of_pack_is_total : forall c spar payload sender rcpts rn w party,
+  pack c spar payload sender rcpts rn = Ok w ->
+  (exists k, unpack Fixed (packer_of c) party w = Ok (Bytes payload, expect_from (packer_of c) sender, k)
+             /\ In k rcpts /\ In k party)
+  \/ unpack Fixed (packer_of c) party w = Err ENotFound /\ (forall k, In k rcpts -> ~ In k party).
+Proof. exact unpack_pack_total. Qed.
+Print Assumptions unpack_of_pack_is_total.
+
+(* Pack fails exactly on the code's pack-side rejections (the decidable predicate [rejects]). *)
 Theorem pack_total : forall c spar payload sender rcpts rn,
   (exists e, pack c spar payload sender rcpts rn = Err e) <-> rejects c spar payload sender rcpts = true.
-Proof.
-  intros. unfold pack. destruct (rejects c spar payload sender rcpts) eqn:R.
-  - split; [reflexivity|]. intros _. eexists; reflexivity.
-  - split; [|discriminate]. intros [e H]. unfold rejects in R.
-    destruct rcpts; [discriminate|]. destruct (packer_of c); try discriminate.
-    destruct (pu_alg (kt_of c) (enc_of c)); [discriminate|].
-    rewrite !orb_false_iff in R. destruct R as [[_ R] _]. discriminate.
-Qed.
+Proof. exact pack_total_lemma. Qed.
 Print Assumptions pack_total.
+
+(* "Whatever payload an agent packs for a set of recipient keys": the statement that Pack succeeds for every
+   payload, every non-empty recipient list and every enc the packer admits, with the sender key in the
+   sender's KMS, is REFUTED by the faithful model (known findings, DESIGN 11 #22) ... *)
+Definition admitted (c : cfg) : bool :=
+  match packer_of c, kt_of c with
+  | (JweAuth | JweAnon), Ed25519 => false
+  | JweAuth, _ => auth_enc_ok (enc_of c)
+  | JweAnon, _ => true
+  | (LegAuth | LegAnon), Ed25519 => true
+  | _, _ => false
+  end.
+Theorem pack_always_succeeds_refuted :
+  (exists c spar payload sender rcpts rn,
+     admitted c = true /\ rcpts <> [] /\ mem sender spar = true /\ payload = 0 /\
+     pack c spar payload sender rcpts rn = Err ERejected) /\
+  (exists c spar payload sender rcpts rn,
+     admitted c = true /\ rcpts <> [] /\ mem sender spar = true /\ payload <> 0 /\
+     pack c spar payload sender rcpts rn = Err ERejected).
+Proof.
+  split.
+  - exists (mkcfg JweAnon X25519 XC20P DidKey), [1], 0, 1, [2; 3], (mkrnd 7 8 9).
+    repeat split; try reflexivity; discriminate.
+  - exists (mkcfg JweAuth P256 A256CBC384 DidKey), [1], 5, 1, [2], (mkrnd 7 8 9).
+    repeat split; try reflexivity; discriminate.
+Qed.
+Print Assumptions pack_always_succeeds_refuted.
+
+(* ... and holds outside exactly those two classes. *)
+Theorem pack_always_succeeds_partial : forall c spar payload sender rcpts rn,
+  admitted c = true -> rcpts <> [] -> (is_auth (packer_of c) = true -> mem sender spar = true) ->
+  negb ((payload =? 0) && Nat.ltb 1 (length rcpts) && stream_enc (enc_of c) && negb (is_legacy (packer_of c))) = true ->
+  negb (match packer_of c, kt_of c, enc_of c with JweAuth, (P256 | P384 | P521), A256CBC384 => true | _, _, _ => false end) = true ->
+  exists w, pack c spar payload sender rcpts rn = Ok w.
+Proof.
+  intros c spar payload sender rcpts rn Ha Hr Hs H1 H2.
+  destruct (pack c spar payload sender rcpts rn) as [w|e|s|] eqn:Hp; [exists w; reflexivity| | |].
+  - exfalso. assert (Hrej : rejects c spar payload sender rcpts = true) by (apply (proj1 (pack_total_lemma c spar payload sender rcpts rn)); exists e; exact Hp).
+    clear Hp. unfold rejects in Hrej. destruct rcpts as [|r rs]; [congruence|].
+    unfold admitted in Ha.
+    destruct (packer_of c) eqn:P, (kt_of c) eqn:K, (enc_of c) eqn:E; cbn in *; try discriminate;
+      try (rewrite (Hs eq_refl) in Hrej); cbn in *;
+      repeat match goal with
+      | H : context [payload =? 0] |- _ => destruct (payload =? 0)
+      | H : context [length rs] |- _ => destruct (length rs)
+      end; cbn in *; try discriminate.
+  - exfalso. unfold pack in Hp. destruct (rejects c spar payload sender rcpts); [discriminate|].
+    destruct (packer_of c); try discriminate. destruct (pu_alg (kt_of c) (enc_of c)); discriminate.
+  - exfalso. unfold pack in Hp. destruct (rejects c spar payload sender rcpts); [discriminate|].
+    destruct (packer_of c); try discriminate. destruct (pu_alg (kt_of c) (enc_of c)); discriminate.
+Qed.
+Print Assumptions pack_always_succeeds_partial.
+
+(* HISTORICAL REFUTATION (before fix: 1a07210): with the DID-document kid resolver as found, a recipient whose
+   kid is not the last keyAgreement entry of its document cannot unpack — the resolver returns a nil key. *)
+Theorem roundtrip_asis_refuted :
+  exists c spar payload sender rcpts rn w party,
+    pack c spar payload sender rcpts rn = Ok w /\ (exists k, In k rcpts /\ In k party) /\
+    unpack AsIs (packer_of c) party w = Panic 2 /\
+    exists k, unpack Fixed (packer_of c) party w = Ok (Bytes payload, Some sender, k).
+Proof.
+  exists (mkcfg JweAuth P256 XC20P DidDocMulti), [1], 5, 1, [2], (mkrnd 7 8 9).
+  eexists. exists [2]. split; [reflexivity|]. split; [exists 2; split; left; reflexivity|].
+  split; [vm_compute; reflexivity|]. exists 2. vm_compute. reflexivity.
+Qed.
+Print Assumptions roundtrip_asis_refuted.
+
+(* non-vacuity: concrete envelopes of every packer, several recipients, a party holding two of the keys, the
+   sender, an outsider *)
+Example roundtrip_nonvacuous :
+  let rn := mkrnd 100 101 102 in
+  (forall p, In p [JweAuth; JweAnon] ->
+     match pack (mkcfg p P384 A256CBC512 DidDoc) [1; 2] 77 1 [5; 6; 7] rn with
+     | Ok w => unpack Fixed p [9; 7; 6] w = Ok (Bytes 77, expect_from p 1, 6) /\
+               unpack_pkgr Fixed [5] w = Ok (Bytes 77, expect_from p 1, 5) /\
+               unpack Fixed p [1; 2] w = Err ENotFound
+     | _ => False
+     end) /\
+  (forall p, In p [LegAuth; LegAnon] ->
+     match pack (mkcfg p Ed25519 XC20P RawKey) [1; 2] 0 1 [5; 6; 7] rn with
+     | Ok w => unpack Fixed p [9; 7; 6] w = Ok (Bytes 0, expect_from p 1, 6) /\
+               unpack_pkgr Fixed [8] w = Err ENotFound
+     | _ => False
+     end).
+Proof.
+  split; intros p [<-|[<-|[]]]; vm_compute; repeat split.
+Qed.
